@@ -172,6 +172,36 @@ def run(chk, replay=None):
                                    "impl": r["out"][j] if j >= 0 else None, "correspondence": "SM.ConcreteNs / SM.NsScript"}, False)
         chk.cov["namespace_script_steps"] = n_ns
 
+    # ---- the snapshot a node would stream to a lagging node (get_current_snapshot): own compactions and installs interleaved ----
+    if ok_h:
+        scases = []
+        for _ in range(12 if tier == "quick" else 150):
+            ops, idx = [], 0
+            for _ in range(rng.randrange(2, 8)):
+                idx += rng.randrange(1, 50)
+                ops.append([rng.choice(["own", "own", "install"]), idx, sorted(rng.sample([1, 2, 3, 4], rng.randrange(1, 4)))])
+                if rng.random() < 0.15:
+                    ops.append(["reopen"])
+            scases.append({"mode": "snapmgr", "ops": ops})
+        sres = lib.harness_run_parallel("indexfile", scases, shards=4, env=henv)
+        for c, r in zip(scases, sres):
+            n_eval += 1
+            if r.get("r") != "ok":
+                chk.violation("snapmgr case failed: %s" % json.dumps(r)[:200], {"suite": "indexfile", "case": c}, True)
+                continue
+            last = None
+            for o, cur in zip(c["ops"], r["obs"]):
+                if o[0] != "reopen":
+                    last = o
+                h = cur.get("header") if isinstance(cur, dict) else None
+                if last is not None and (h is None or h["last_index"] != last[1] or h["member"] != last[2]):
+                    chk.classify("current-snapshot-header", "after %s the node's current snapshot (what get_current_snapshot streams to a lagging node) "
+                                 "is announced with header %s, but the file is the snapshot at index %d with members %s"
+                                 % (json.dumps(o), json.dumps(h), last[1], last[2]), {"suite": "indexfile", "case": c, "obs": r["obs"]})
+                    break
+            nontrivial.add(("snapmgr", json.dumps(c["ops"])[:120]))
+        chk.cov["snapshot_manager_scripts"] = len(scases)
+
     # ---- a follower killed DURING the snapshot install: crash images of its data directory, restarted next to the leader ----
     import nodescen_install
     from checks import c04 as _c04
